@@ -200,6 +200,12 @@ def run_sequence(fmt: str, eps: int, seq: list, readers=("sync",)) -> dict:
     from sedpack.io import Dataset, Metadata
     root = core.fresh_dir("w")
     bad: list[tuple[str, str, str]] = []
+    # "+reuse": the caller passes ONE dict object for every call (cleared and
+    # refilled) and, where dtype and shape allow, the same arrays updated in
+    # place - what a loop that recycles its buffers does
+    reuse = "+reuse" in fmt
+    fmt = fmt.replace("+reuse", "")
+    box: dict = {}
     with_bytes = fmt.endswith("+b")
     fmt = fmt.split("+")[0]
     vals_fn = values_b if with_bytes else values_for
@@ -238,6 +244,20 @@ def run_sequence(fmt: str, eps: int, seq: list, readers=("sync",)) -> dict:
                     idt = (0, 0, i)
                     try:
                         values = vals_fn(val, idt)
+                        if reuse and isinstance(values, dict):
+                            for k_, v_ in values.items():
+                                old_ = box.get(k_)
+                                if (isinstance(old_, np.ndarray) and
+                                        isinstance(v_, np.ndarray) and
+                                        old_.dtype == v_.dtype and
+                                        old_.shape == v_.shape):
+                                    old_[...] = v_
+                                    values[k_] = old_
+                            for k_ in list(box):
+                                if k_ not in values:
+                                    del box[k_]
+                            box.update(values)
+                            values = box
                         filler.write_example(values=values,
                                              split=split,
                                              custom_metadata=arg)
